@@ -80,6 +80,7 @@ fn main() {
     "c20" => props::c20::run(&cfg),
     "c07" => props::c07::run(&cfg),
     "c10" => props::c10::run(&cfg),
+    "c11" => props::c11::run(&cfg),
     _ => {
       eprintln!("unknown property {}", prop);
       std::process::exit(2);
